@@ -45,6 +45,9 @@ structure File where
   mtime : Nat
   /-- the content does not compile (lexer/parser raise) -/
   broken : Bool
+  /-- the content compiles in Mako, but the generated module raises when it is imported / executed
+  (`<% break %>`, `<%! import nonexistent %>`, `<%! raise … %>`) -/
+  late : Bool
 deriving DecidableEq, Repr
 
 /-- a constructed `Template` -/
@@ -72,6 +75,8 @@ structure ModFile where
   content : Content
   /-- `_modified_time` written into the module = mtime of the module file (same simulated second) -/
   time : Nat
+  /-- importing this module file raises (it was generated from late-breaking content) -/
+  late : Bool
 deriving DecidableEq, Repr
 
 structure Cfg where
@@ -107,6 +112,8 @@ inductive Op
   | deleteFile (d : Dir) (u : Uri)
   /-- write content that fails to compile -/
   | breakFile (d : Dir) (u : Uri)
+  /-- write content that compiles in Mako but whose module raises at import -/
+  | breakFileLate (d : Dir) (u : Uri)
   | getTemplate (u : Uri)
   | hasTemplate (u : Uri)
   | putString (u : Uri) (c : Content)
@@ -120,6 +127,8 @@ inductive Exc
   | lookup
   /-- `CompileException` / `SyntaxException` -/
   | compile
+  /-- whatever the import / execution of the generated module raises (`SyntaxError`, `ImportError`, …) -/
+  | late
   /-- an `OSError` escaping (cannot happen sequentially; kept because the code has the path) -/
   | os
 deriving DecidableEq, Repr
@@ -216,16 +225,23 @@ def construct (cfg : Cfg) (s : State) (k : Uri) (f : FileRef) : Except Exc Tmpl 
   | some file =>
     let regenerate : Except Exc Tmpl × State :=
       if file.broken then (.error .compile, s1)    -- nothing is written
+      else if file.late then
+        -- the module source is generated and (with a module directory) written; its import / execution raises
+        (.error .late, { s1 with
+          mods := if cfg.moddir then setMod s.mods k (some ⟨f, file.content, s.clock, true⟩) else s.mods })
       else
         let t : Tmpl := ⟨s.nextId, k, some f, file.content, s.clock⟩
         (.ok t, { s1 with
-          mods := if cfg.moddir then setMod s.mods k (some ⟨f, file.content, s.clock⟩) else s.mods,
+          mods := if cfg.moddir then setMod s.mods k (some ⟨f, file.content, s.clock, false⟩) else s.mods,
           made := s.made ++ [t] })
     if cfg.moddir then
       match s.mods k with
       | none => regenerate
       | some m =>
-        if m.time < file.mtime then regenerate
+        -- the mutated order "import first, then look at the mtimes" (regenerated flag)
+        if !staleDecidedBeforeImport && m.late then (.error .late, s1)
+        else if m.time < file.mtime then regenerate
+        else if m.late then (.error .late, s1)       -- the existing module file is imported: it raises
         else if moduleChecksSourceName && m.src != f then
           -- the module is loaded, found to be generated from another file name, and regenerated
           regenerate
@@ -288,9 +304,10 @@ def putString (cfg : Cfg) (s : State) (k : Uri) (c : Content) : State :=
 
 def step (cfg : Cfg) (s : State) : Op → Out × State
   | .tick n => (.none, { s with clock := s.clock + n })
-  | .writeFile d u c => (.none, { s with fs := setFs s.fs (d, u) (some ⟨c, s.clock, false⟩) })
+  | .writeFile d u c => (.none, { s with fs := setFs s.fs (d, u) (some ⟨c, s.clock, false, false⟩) })
   | .deleteFile d u => (.none, { s with fs := setFs s.fs (d, u) none })
-  | .breakFile d u => (.none, { s with fs := setFs s.fs (d, u) (some ⟨0, s.clock, true⟩) })
+  | .breakFile d u => (.none, { s with fs := setFs s.fs (d, u) (some ⟨0, s.clock, true, false⟩) })
+  | .breakFileLate d u => (.none, { s with fs := setFs s.fs (d, u) (some ⟨0, s.clock, false, true⟩) })
   | .getTemplate u =>
     match getTemplate cfg s u with
     | (.ok t, s') => (.ok t.id t.content, s')
